@@ -27,6 +27,7 @@ Brackets == << A(W!CtxTok("open", "["), "["), A(W!CtxTok("close", "]"), "]") >>
 InOp == << A(W!OpTok(<<"in">>), "%in%") >>
 Extra == << A(W!Tok("name", "c"), "c"),
             A(W!Tok("name", "x y"), "`x y`"),
+            A(W!Tok("name", "a:b"), "`a:b`"),          \* a quoted name that prints like an interaction
             A(W!PyTok("f(a)", <<"f", "a">>), "f(a)"),
             A(W!ValTok("\"s\"", FALSE, -1), "\"s\""),
             A(W!OpTok(<<".">>), "."),
@@ -35,6 +36,8 @@ Extra == << A(W!Tok("name", "c"), "c"),
 Alphabet ==
   CASE AlphaName = "core" -> Names \o Lits \o OpChars \o InOp \o Parens
     [] AlphaName = "full" -> Names \o Lits \o OpChars \o InOp \o Parens \o Brackets \o Extra
+    \* quoted names that print like interactions: term identity must be the SET of factor expressions, not a joined string
+    [] AlphaName = "colon" -> << Names[1], Names[2], A(W!Tok("name", "a:b"), "`a:b`"), A(W!Tok("name", "b:a"), "`b:a`"), OpC("+"), OpC("-"), OpC(":"), OpC("*") >>
     [] AlphaName = "signs" -> << Names[1], Names[2], Lits[1], Lits[2], OpC("+"), OpC("-"), OpC("~"), OpC("|"), OpC(":"), OpC("*") >>
 
 AllFlags == {"TWOSIDED", "MULTIPART", "MULTISTAGE"}
@@ -101,7 +104,7 @@ MachineOK == \A k \in DOMAIN Cfgs :
 (* compact rendering of outcomes for the replay leg *)
 RECURSIVE Join(_, _)
 Join(ss, sep) == IF ss = <<>> THEN "" ELSE IF Len(ss) = 1 THEN ss[1] ELSE ss[1] \o sep \o Join(Tail(ss), sep)
-TermStr(t) == Join(W!ExprSeq(t), ":")
+TermStr(t) == Join(W!ExprSeq(t), " & ")      \* injective as long as no factor expression contains " & "
 TermsStr(ts) == IF ts = <<>> THEN "{}" ELSE Join([i \in DOMAIN ts |-> TermStr(ts[i])], " + ")
 PartsStr(ps) == Join([i \in DOMAIN ps |-> TermsStr(ps[i])], " | ")
 ResStr(res) == CASE res.st = "REJECT" -> "R" [] res.st = "UNMODELLED" -> "U"
